@@ -11,6 +11,8 @@
 #include <string>
 #include <vector>
 
+#include "libcellml/analyser.h"
+#include "libcellml/analysermodel.h"
 #include "libcellml/component.h"
 #include "libcellml/model.h"
 #include "libcellml/variable.h"
@@ -29,18 +31,22 @@ static int searchMode(int argc, char **argv)
         auto m = Model::create("m");
         int nv = 2 + rng() % 6;
         std::vector<VariablePtr> vars;
+        ComponentPtr lastComponent;
         for (int i = 0; i < nv; ++i) {
-            auto c = Component::create("c" + std::to_string(i));
+            // one or two variables per component (two variables of one component can only be linked indirectly)
+            auto c = (lastComponent != nullptr && rng() % 3 == 0) ? lastComponent : Component::create("c" + std::to_string(i));
             auto v = Variable::create("v" + std::to_string(i));
+            v->setUnits("second");
             c->addVariable(v);
-            m->addComponent(c);
+            if (c != lastComponent) m->addComponent(c);
+            lastComponent = c;
             vars.push_back(v);
         }
         int ne = rng() % (2 * nv);
         std::string edges;
         for (int e = 0; e < ne; ++e) {
             int a = rng() % nv, b = rng() % nv;
-            if (a != b) {
+            if (a != b && vars[a]->parent() != vars[b]->parent()) {
                 Variable::addEquivalence(vars[a], vars[b]);
                 edges += std::to_string(a) + "-" + std::to_string(b) + " ";
             }
@@ -78,6 +84,22 @@ static int searchMode(int argc, char **argv)
                     return 0;
                 }
             }
+        // the analyser model's cached query: same answers (plus the reflexive case), in the same shuffled order, twice
+        auto analyser = Analyser::create();
+        analyser->analyseModel(m);
+        auto am = analyser->model();
+        if (am != nullptr) {
+            for (int rep = 0; rep < 2; ++rep)
+                for (auto &p : pairs) {
+                    bool got = am->areEquivalentVariables(vars[p.first], vars[p.second]);
+                    bool want = reach[p.first][p.second];
+                    if (got != want) {
+                        printf("SEARCH violates=1 what=AnalyserModel::areEquivalentVariables(v%d, v%d) is %s but the variables are %s (%d variables, equivalences added: %s; network %ld)\n", p.first, p.second,
+                               got ? "true" : "false", want ? "linked (or the same)" : "not linked", nv, edges.c_str(), t);
+                        return 0;
+                    }
+                }
+        }
     }
     printf("SEARCH violates=0 networks=%ld\n", n);
     return 0;
